@@ -264,16 +264,21 @@ func (e *ArrayExp) FindRefs() []*RefExp {
 	return result
 }
 
-func (e *MapExp) FindRefs() []*RefExp {
-	var result []*RefExp
-	// Visit the keys in sorted order, so the order of the references (which
-	// shows up in error messages) does not depend on map iteration order.
+// The keys of the map, sorted.
+func (e *MapExp) sortedKeys() []string {
 	keys := make([]string, 0, len(e.Value))
 	for k := range e.Value {
 		keys = append(keys, k)
 	}
 	sort.Strings(keys)
-	for _, k := range keys {
+	return keys
+}
+
+func (e *MapExp) FindRefs() []*RefExp {
+	var result []*RefExp
+	// Visit the keys in sorted order, so the order of the references (which
+	// shows up in error messages) does not depend on map iteration order.
+	for _, k := range e.sortedKeys() {
 		r := e.Value[k].FindRefs()
 		if len(r) > 0 {
 			if len(result) == 0 {
